@@ -228,6 +228,19 @@ pub fn draw_plan(r: &mut Rng, gp: &GenParams, present_defs: &[usize], defs: &[De
     if !bumped_present.is_empty() && r.chance(gp.p_fail / 3, 1000) {
         plan.fail.insert(*r.pick(&bumped_present), Leave::Garbage);
     }
+    // ... or a job one or two levels below the change fails: the change arrives, its consumer does not
+    if !bumped_present.is_empty() && r.chance(gp.p_fail / 3, 1000) {
+        let b = *r.pick(&bumped_present);
+        let mut below: Vec<usize> = g.downstreams(b);
+        for d in below.clone() {
+            below.extend(g.downstreams(d));
+        }
+        below.sort();
+        below.dedup();
+        if !below.is_empty() {
+            plan.fail.insert(*r.pick(&below), *r.pick(&[Leave::Garbage, Leave::Untouched, Leave::Removed]));
+        }
+    }
     if r.chance(gp.p_abort, 1000) {
         plan.abort = Some(AbortPlan {
             at: r.below(2 * n + 2) as u32,
@@ -398,7 +411,9 @@ pub fn generate(seed: u64, gp: &GenParams) -> Scenario {
     let mut ladder_edges: Vec<(usize, usize)> = Vec::new(); // (down, up)
     if shape == 6 {
         let mut rl = root.fork("ladder");
-        ladder_kinds.push(Kind::Always); // X
+        // X: mostly an Always job; sometimes an Ephemeral or Output (then the failure that travels down
+        // the chain is X's own, late one)
+        ladder_kinds.push([Kind::Always, Kind::Ephemeral, Kind::Output][rl.weighted(&[6, 3, 1])]); // X
         let n_eph = 1 + rl.below(3);
         for _ in 0..n_eph {
             ladder_kinds.push(Kind::Ephemeral);
@@ -435,6 +450,10 @@ pub fn generate(seed: u64, gp: &GenParams) -> Scenario {
             }
         }
         let last = *chain.last().unwrap();
+        if rl.chance(1, 3) {
+            // the root feeds the end of the chain directly, too
+            ladder_edges.push((last, 0));
+        }
         for e in 1..=n_eph {
             // upper consumer: depth 1..k-2; lower consumer: mostly the end of the chain
             let du = rl.below(k.saturating_sub(2).max(1));
@@ -451,15 +470,16 @@ pub fn generate(seed: u64, gp: &GenParams) -> Scenario {
             }
         }
     }
+    let layer_w = 2 + r.weighted(&[4, 4, 2, 1]);
     let n_defs = match shape {
         0 => 1 + r.below(max_jobs),
+        2 => (layer_w * (2 + r.below(2)) + r.below(3)).min(16).max(3),
         3 => motif_core + r.below(max_jobs.saturating_sub(motif_core - 1).max(1)),
         4 => forest_kinds.len() + r.below(3),
         5 => hub_kinds.len() + r.below(3),
         6 => ladder_kinds.len() + r.below(2),
         _ => 3 + r.below(max_jobs.saturating_sub(2).max(1)),
     };
-    let layer_w = 2 + r.below(2);
     let mut defs = Vec::new();
     for i in 0..n_defs {
         let kind_w = match shape {
@@ -533,7 +553,7 @@ pub fn generate(seed: u64, gp: &GenParams) -> Scenario {
     let n_rounds = 1 + r.below(gp.max_rounds);
     let mut rounds = Vec::new();
     let mut g = GraphState::default();
-    let mut undo_prev: Vec<Edit> = Vec::new();
+    let mut undo_prev: Vec<(u8, Edit)> = Vec::new();
     for round in 0..n_rounds {
         let mut edits = Vec::new();
         if round == 0 {
@@ -660,7 +680,7 @@ pub fn generate(seed: u64, gp: &GenParams) -> Scenario {
             for _ in 0..k {
                 // one edit in six takes back an edit of the previous round (try something, revert it)
                 let e = if !undo_prev.is_empty() && r.chance(1, 6) {
-                    Some(undo_prev[r.below(undo_prev.len())].clone())
+                    Some(undo_prev[r.below(undo_prev.len())].1.clone())
                 } else {
                     draw_edit(&mut r, gp, &cfg, &defs, &g)
                 };
@@ -672,7 +692,12 @@ pub fn generate(seed: u64, gp: &GenParams) -> Scenario {
                     edits.push(e);
                 }
             }
-            undo_prev = undo_next;
+            // (edits of the last two rounds can be taken back: change, leave it for a round, change back)
+            undo_prev.retain(|(age, _)| *age == 0);
+            for (age, _) in undo_prev.iter_mut() {
+                *age = 1;
+            }
+            undo_prev.extend(undo_next.into_iter().map(|e| (0u8, e)));
             if rename_heavy {
                 for d in 0..n_defs {
                     if defs[d].universe.len() > 1 && r.chance(1, 3) {
